@@ -270,7 +270,16 @@ ConfV1Tick(nd) == nd.a = "V1Tick" /\ ~IsRoot(nd) => V1TickConforms(Cfg(nd), Pre(
 ConfEsm(nd) == nd.a \in {"EsmDeposit", "EsmExecute"} /\ ~IsRoot(nd) => EsmStepConforms(Cfg(nd), Pre(nd), nd.a, nd.args, Ok(nd), Post(nd))
 ConfVault(nd) == nd.a \in VaultOps /\ ~Cfg(nd).interest /\ ~IsRoot(nd) => VaultStepConforms(Cfg(nd), Pre(nd), nd.a, nd.args, Ok(nd), Post(nd))
 
-Formulas == <<"C01_Custody", "C01_Count", "C01_TotalsColl", "C01_TotalsMinted", "C01_TotalsIds",
+(* ------------------------------------ C13 (collector book, vault/liquidation side) ------------------------------------ *)
+(* every step changes the collector's custody of a denom by exactly the change of the recorded net fees of that asset,  *)
+(* and net fees never go negative (fees, interest, penalties in; lossy-auction cover out).                               *)
+NetFee(S, asset) == SumSeq(S.netfees, LAMBDA n : IF n.asset = asset THEN n.amt ELSE 0)
+C13CollectorDelta(nd) == ~IsRoot(nd) => \A d \in {"ucm", "uat", "ust", "uus"} :
+   Post(nd).bal.collectorV1[d] - Pre(nd).bal.collectorV1[d] = NetFee(Post(nd), Cfg(nd).assets[d]) - NetFee(Pre(nd), Cfg(nd).assets[d])
+C13NetFeesNonNeg(nd) == \A n \in Range(Post(nd).netfees) : n.amt >= 0
+C13CollectorBacked(nd) == \A d \in {"ucm", "uat", "ust", "uus"} : Post(nd).bal.collectorV1[d] >= NetFee(Post(nd), Cfg(nd).assets[d])
+
+Formulas == <<"C13_CollectorDelta", "C13_NetFeesNonNeg", "C13_CollectorBacked", "C01_Custody", "C01_Count", "C01_TotalsColl", "C01_TotalsMinted", "C01_TotalsIds",
               "C02_Backed", "C02_ExactNoLiq", "C02_MintDelivery", "C02_BurnExact", "C02_NoMintElsewhere", "C02_FeesNotMinted",
               "C03_MinRatio", "C03_Floor", "C03_Ceiling", "C03_InactivePrice",
               "C09_OnlyUnsafe", "C09_SeizeExact", "C09_CustodyMoves", "C09_Live",
@@ -281,7 +290,10 @@ Formulas == <<"C01_Custody", "C01_Count", "C01_TotalsColl", "C01_TotalsMinted", 
               "Conf_Vault", "Conf_Block", "Conf_V1Sweep", "Conf_V1Liquidate", "Conf_V1Bid", "Conf_V1Tick", "Conf_Esm">>
 Holds(f, i) ==
   LET nd == Nd(i) IN
-  CASE f = "C01_Custody" -> C01Custody(nd)
+  CASE f = "C13_CollectorDelta" -> C13CollectorDelta(nd)
+    [] f = "C13_NetFeesNonNeg" -> C13NetFeesNonNeg(nd)
+    [] f = "C13_CollectorBacked" -> C13CollectorBacked(nd)
+    [] f = "C01_Custody" -> C01Custody(nd)
     [] f = "C01_Count" -> C01Count(nd)
     [] f = "C01_TotalsColl" -> C01TotalsColl(i)
     [] f = "C01_TotalsMinted" -> C01TotalsMinted(i)
